@@ -202,6 +202,19 @@ func (e *enc) ret(c *Case, res *outcome, rec *recorder, src graph.EdgeSlice, siz
 		e.i(i)
 		e.s(`,"v":`)
 		e.i(v)
+		// the identifier a helper node carries in the output is part of the result (C07: same arguments, same result): the
+		// number k of "V<k>", or -1 for anything else
+		e.s(`,"vid":`)
+		vid := 0
+		if v == 1 {
+			vid = -1
+			if len(n.ID) > 1 && n.ID[0] == 'V' {
+				if k, err := strconv.Atoi(n.ID[1:]); err == nil {
+					vid = k
+				}
+			}
+		}
+		e.i(vid)
 		e.s(`,"x":`)
 		e.q(un(n.X))
 		e.s(`,"y":`)
